@@ -1,5 +1,5 @@
 ------------------------------ MODULE MC_Server ------------------------------
-EXTENDS Server, Json
+EXTENDS Server, Json, SequencesExt
 CONSTANTS Walks, MaxEvents
 VARIABLES s, hist, w
 Init == s = V0 /\ hist = <<>> /\ w \in (IF Walks = 0 THEN {0} ELSE 1..Walks)
@@ -10,5 +10,13 @@ Next == /\ Len(hist) < MaxEvents
            ELSE \E ev \in {RandomElement({x \in Evs : App(x) # {}})} : \E t \in App(ev) : s' = t /\ hist' = Append(hist, ev)
         /\ w' = w
 Inv == D10_OneConnInOrder(s)
+\* directed interleavings: every hostile class (i) before any well-behaved peer has connected, (ii) between the requests
+\* of connected peers and the arrival of a new one, (iii) twice in a row from both adversaries
+G(p) == [e |-> "good", p |-> p, c |-> "req"]
+B(q, c) == [e |-> "bad", p |-> q, c |-> c]
+Directed == UNION {{<<B(3, c), G(1), G(2), G(1), G(2)>>,
+                    <<G(1), B(3, c), G(2), G(1), B(4, c), G(2), G(1)>>,
+                    <<B(3, c), B(4, c), B(3, c), G(1), G(2), G(1)>>} : c \in Classes}
+ASSUME JsonSerialize("directed.json", SetToSeq(Directed))
 Emit == (Walks > 0 /\ Len(hist) = MaxEvents) => PrintT(<<"HIST", ToJson(hist)>>)
 =============================================================================
